@@ -163,10 +163,12 @@ theorem wellBuilt_of_addrs {t : Table} (hw : t.WF) (p : Row → Bool) (kind : Ki
       refine .inl ⟨u, mem_updatedOf.mpr ⟨f, hf, hne, he⟩, ?_⟩
       rw [(extendDeletions_some he).1]; exact h0
 
-theorem wellBuilt_mk {t : Table} (hw : t.WF) (op : OpKind) (tok : Nat) : WellBuilt t (mk t op tok).1 (mk t op tok).2 := by
+theorem wellBuilt_mk {t : Table} (hw : t.WF) (op : OpKind) (hop : op.movesRows = true) (tok : Nat) :
+    WellBuilt t (mk t op tok).1 (mk t op tok).2 := by
   cases op with
   | del keys => exact wellBuilt_of_addrs hw _ .delete (.inl rfl) _ tok
   | upd keys => exact wellBuilt_of_addrs hw _ .update (.inr rfl) _ tok
   | mrg src => exact wellBuilt_of_addrs hw _ .update (.inr rfl) _ tok
+  | pmrg src => cases hop
 
 end LanceModel.C04
